@@ -4,7 +4,11 @@ package genesis
 // combination of the two cpc flags, a generated history is executed on it (contract deployments, storage writes
 // incl. zero-valued and cleared slots, self-destructs, code-less accounts with storage, ERC-20 precompiles
 // deployed by message, approvals, staking precompile deployed by message, vauth proofs, parameter changes,
-// base fee drift), then:  real ExportAppStateAndValidators(A)  ->  fresh NewEvermint + real InitChain = B  ->
+// base fee drift; fee-market / evm / cpc params set through the real MsgUpdateParams handlers with the gov authority,
+// boundary-heavy: fractional / integral / zero / huge min gas price, base fee on / just above / far above / below the
+// floor trunc(min gas price), blocks executed afterwards so that EndBlock has applied its own clamp; export right after
+// InitChain, right after the deploying block, or several blocks later; chain B with its own initial height, consensus
+// params and chain id), then:  real ExportAppStateAndValidators(A)  ->  fresh NewEvermint + real InitChain = B  ->
 // the custom modules' stores of A and B compared entry by entry (oracle)  ->  real export of B compared with
 // the first export (oracle).  The model gets the raw store content of A and must predict the exported document,
 // B's store content and B's export.
@@ -27,7 +31,11 @@ import (
 	"github.com/ethereum/go-ethereum/crypto"
 	"github.com/stretchr/testify/require"
 
+	authtypes "github.com/cosmos/cosmos-sdk/x/auth/types"
+	govtypes "github.com/cosmos/cosmos-sdk/x/gov/types"
+
 	chainapp "github.com/EscanBE/evermint/v12/app"
+	cpckeeper "github.com/EscanBE/evermint/v12/x/cpc/keeper"
 	itutiltypes "github.com/EscanBE/evermint/v12/integration_test_util/types"
 	cpctypes "github.com/EscanBE/evermint/v12/x/cpc/types"
 	evmtypes "github.com/EscanBE/evermint/v12/x/evm/types"
@@ -59,6 +67,15 @@ const (
 	sigSecondExport = "C18/genesis/second-export-differs"
 	sigFlag         = "C18/genesis/genesis-flag-not-honoured"
 	sigInvalid      = "C18/genesis/export-fails-validate-genesis"
+	sigChanged      = "C18/genesis/cpc-or-vauth-entry-changed" // an entry that is neither kept nor lost in the known way
+	sigUnknown      = "C18/genesis/store-entry-under-unknown-prefix"
+	sigChainID      = "C18/genesis/evm-chain-id-wrong"
+	sigNondet       = "C18/genesis/export-not-deterministic"
+	sigExportWrites = "C18/genesis/export-changes-state"
+	sigExportState  = "C18/genesis/export-differs-from-state"
+	sigHeight       = "C18/genesis/export-height-wrong"
+	sigFmDoc        = "C18/genesis/feemarket-document-not-stored-as-is"
+	sigFmInvalid    = "C18/genesis/invalid-feemarket-document-accepted"
 )
 
 // same Store contract as the indexer driver: calldata of (key,value) pairs -> SSTORE + LOG1; 1 byte -> SELFDESTRUCT; 2 bytes -> REVERT
@@ -101,6 +118,7 @@ type hist struct {
 	nativeGen *common.Address         // native ERC-20 deployed by the genesis flag
 	stakingBy string                  // "", "genesis", "msg"
 	ops       []string
+	evmOnly   bool // only Ethereum transactions that need no flush and no precompile deployer (the block right before the export)
 }
 
 func (h *hist) wallet() *itutiltypes.TestAccount { return h.c.S.WalletAccounts.Number(1 + h.r.Intn(5)) }
@@ -113,7 +131,14 @@ func (h *hist) nonce(a *itutiltypes.TestAccount) uint64 {
 	return h.pending[addr]
 }
 
-func (h *hist) price() *big.Int { return new(big.Int).Mul(big.NewInt(2), h.c.BaseFee(h.c.QueryCtx())) }
+// price: enough for the current base fee (which the fee market may raise by 1/8 before the tx runs) and for the
+// global min gas price, whatever governance has set them to
+func (h *hist) price() *big.Int {
+	ctx := h.c.QueryCtx()
+	p := new(big.Int).Mul(big.NewInt(2), h.c.BaseFee(ctx))
+	p.Add(p, h.c.App.FeeMarketKeeper.GetParams(ctx).MinGasPrice.Ceil().TruncateInt().BigInt())
+	return p.Add(p, big.NewInt(1))
+}
 
 func (h *hist) eth(a *itutiltypes.TestAccount, to *common.Address, gas uint64, data []byte, after func(ok bool)) {
 	raw, _, err := h.c.EthTxBytes(a, &ethtypes.LegacyTx{Nonce: h.nonce(a), GasPrice: h.price(), Gas: gas, To: to, Data: data})
@@ -135,6 +160,24 @@ func pairs(r *Rng, n int) [][2]int64 {
 	out := make([][2]int64, n)
 	for i := range out {
 		out[i] = [2]int64{int64(r.Intn(5)), int64(r.Intn(3))} // value 0 included: zero-valued and cleared slots
+	}
+	return out
+}
+
+// manyPairs: many slots over a wide key range (keys sort differently as bytes than the order they are written in),
+// zero words, small and 63-bit values
+func manyPairs(r *Rng, n int) [][2]int64 {
+	out := make([][2]int64, n)
+	for i := range out {
+		v := int64(r.Intn(3))
+		if r.Chance(30) {
+			v = int64(r.U64() >> 1)
+		}
+		k := int64(r.Intn(256))
+		if r.Chance(20) {
+			k = int64(r.U64() >> 1)
+		}
+		out[i] = [2]int64{k, v}
 	}
 	return out
 }
@@ -193,8 +236,11 @@ func (h *hist) flush() {
 
 func (h *hist) op() {
 	r := h.r
-	kinds := []string{"deploy_store", "deploy_store", "store_write", "store_write", "store_write", "store_write", "selfdestruct", "selfdestruct", "codeless_storage", "erc20_by_msg", "erc20_by_msg",
+	kinds := []string{"deploy_store", "deploy_store", "store_write", "store_write", "store_write", "store_write", "store_write_many", "selfdestruct", "selfdestruct", "codeless_storage", "erc20_by_msg", "erc20_by_msg",
 		"approve", "approve", "approve", "staking_by_msg", "vauth_proof", "transfer", "revert"}
+	if h.evmOnly {
+		kinds = []string{"deploy_store", "store_write", "store_write", "store_write_many", "codeless_storage", "selfdestruct", "transfer"}
+	}
 	k := kinds[r.Intn(len(kinds))]
 	if len(h.ops) == 0 && r.Chance(80) {
 		k = "deploy_store"
@@ -216,6 +262,13 @@ func (h *hist) op() {
 		to := h.stores[r.Intn(len(h.stores))]
 		ps := pairs(r, 1+r.Intn(3))
 		h.eth(a, &to, 60000+uint64(len(ps))*30000, pairData(ps), nil)
+	case "store_write_many":
+		if len(h.stores) == 0 {
+			return
+		}
+		to := h.stores[r.Intn(len(h.stores))]
+		ps := manyPairs(r, 12+r.Intn(20))
+		h.eth(a, &to, 100000+uint64(len(ps))*30000, pairData(ps), nil)
 	case "selfdestruct":
 		if len(h.stores) == 0 || !r.Chance(50) {
 			return
@@ -300,7 +353,7 @@ func (h *hist) op() {
 	}
 	h.ops = append(h.ops, k)
 	h.side.Count("op:" + k)
-	if r.Chance(40) || k == "deploy_store" {
+	if !h.evmOnly && (r.Chance(40) || k == "deploy_store") {
 		h.flush()
 	}
 }
@@ -322,8 +375,9 @@ func TestDriverGenesis(t *testing.T) {
 	n := EnvInt("VERIF_N", 60)
 	rng := NewRng(seed)
 	side := NewSidecar("genesis", seed,
-		"case = (cpc genesis flags, generated history of 3-14 operations on chain A) -> export -> fresh app B by InitChain -> stores compared -> second export; GImport cases = import of a document with each flag combination; "+
-			"non-trivial = history leaves at least one contract with storage, or a precompile / allowance / proof / code-less storage, i.e. something that can be lost; distinct by flags and operation sequence")
+		"case = (cpc genesis flags, initial height of A, generated history of 0-14 operations on chain A, params of the three modules set through MsgUpdateParams with boundary-heavy fee-market values, export right after InitChain / right after the deploying block / 1-4 blocks later) -> export -> fresh app B by InitChain (own initial height, consensus params, chain id) -> stores and every params field compared -> second export; "+
+			"GImport cases = import of a document with each flag combination and of fee-market documents (fractional min gas price, base fee below / on / above the floor, negative values); "+
+			"non-trivial = the state holds at least one contract with storage, or a precompile / allowance / proof / code-less storage, or params differing from the defaults, i.e. something that can be lost; distinct by configuration and operation sequence")
 	cases := NewCases(dir, "From Evm Require Import Genesis CorrGenesis.", "genesis_mismatches")
 	d := &gdriver{t: t, side: side, cases: cases, seed: seed}
 	d.reference()
@@ -332,6 +386,123 @@ func TestDriverGenesis(t *testing.T) {
 	}
 	cases.Write(t, 10)
 	side.Write(t, dir)
+}
+
+func govAuthority() string { return authtypes.NewModuleAddress(govtypes.ModuleName).String() }
+
+// ------------------------------------------------------------------ parameter plans (what governance sets)
+
+type fmPlan struct {
+	mgp     sdkmath.LegacyDec
+	baseFee sdkmath.Int
+	mgpCls  string
+	bfCls   string
+}
+
+func dec(s string) sdkmath.LegacyDec { return sdkmath.LegacyMustNewDecFromStr(s) }
+
+// genFm: boundary-heavy fee-market params. affordable: values under which the wallets can still pay for transactions.
+func genFm(r *Rng, affordable bool) fmPlan {
+	type mv struct {
+		cls string
+		v   sdkmath.LegacyDec
+		big bool
+	}
+	mgps := []mv{
+		{"zero", dec("0"), false},
+		{"integral", dec("7"), false},
+		{"integral", dec("1000000000"), false},
+		{"fractional<1", dec("0.5"), false},
+		{"fractional<1", dec("0.000000000000000001"), false},
+		{"fractional", dec("1000000000.5"), false},
+		{"fractional", dec("1000000000.5"), false},
+		{"fractional", dec("1000000000.000000000000000001"), false},
+		{"fractional", dec("999999999.999999999999999999"), false},
+		{"fractional", dec("7.25"), false},
+		{"fractional", dec("1.999999999999999999"), false},
+		{"huge-fractional", dec("1000000000000000000000000000000.5"), true},
+		{"huge-integral", dec("123456789012345678901234567890"), true},
+	}
+	var m mv
+	for {
+		m = mgps[r.Intn(len(mgps))]
+		if !(affordable && m.big) {
+			break
+		}
+	}
+	floor := m.v.TruncateInt()
+	bfs := []string{"on-floor", "on-floor", "floor+1", "floor+1", "just-above", "far-above", "zero", "below-floor", "huge"}
+	var cls string
+	for {
+		cls = bfs[r.Intn(len(bfs))]
+		if !(affordable && cls == "huge") {
+			break
+		}
+	}
+	var bf sdkmath.Int
+	switch cls {
+	case "on-floor":
+		bf = floor
+	case "floor+1":
+		bf = floor.AddRaw(1)
+	case "just-above":
+		bf = floor.AddRaw(int64(2 + r.Intn(8)))
+	case "far-above":
+		bf = floor.MulRaw(2).AddRaw(1000000000 + int64(r.Intn(1000)))
+	case "zero":
+		bf = sdkmath.ZeroInt()
+	case "below-floor":
+		bf = floor.QuoRaw(2)
+	case "huge":
+		bf = sdkmath.NewIntFromBigInt(new(big.Int).Add(Pow2(200), big.NewInt(int64(r.Intn(1000)))))
+	}
+	return fmPlan{mgp: m.v, baseFee: bf, mgpCls: m.cls, bfCls: cls}
+}
+
+type evmPlan struct {
+	create, call bool
+	eips         []int64
+	denom        string
+}
+
+func genEvm(r *Rng, txCompatible bool) evmPlan {
+	eips := [][]int64{nil, {}, {3855}, {3855, 2200}, {2200, 3855}, {1344, 1344}, {1344, 1884, 2200, 2929, 3198, 3529, 3855}, {3198}}
+	p := evmPlan{create: true, call: true, eips: eips[r.Intn(len(eips))], denom: evmtypes.DefaultEVMDenom}
+	if !txCompatible {
+		p.create, p.call = r.Bool(), r.Bool()
+		if r.Chance(25) {
+			p.denom = "uother"
+		}
+	}
+	return p
+}
+
+func (d *gdriver) applyFm(a *Chain, p fmPlan, when string) {
+	ctx := a.Ctx()
+	_, err := a.App.FeeMarketKeeper.UpdateParams(ctx, &feemarkettypes.MsgUpdateParams{Authority: govAuthority(), Params: feemarkettypes.Params{BaseFee: p.baseFee, MinGasPrice: p.mgp}})
+	require.NoError(d.t, err)
+	d.side.Count("config:" + when + ":feemarket min_gas_price=" + p.mgpCls + " base_fee=" + p.bfCls)
+}
+
+func (d *gdriver) applyEvm(a *Chain, p evmPlan, when string) {
+	ctx := a.Ctx()
+	cur := a.App.EvmKeeper.GetParams(ctx)
+	cur.EnableCreate, cur.EnableCall, cur.ExtraEIPs, cur.EvmDenom = p.create, p.call, p.eips, p.denom
+	_, err := a.App.EvmKeeper.UpdateParams(ctx, &evmtypes.MsgUpdateParams{Authority: govAuthority(), Params: cur})
+	require.NoError(d.t, err)
+	d.side.Count(fmt.Sprintf("config:%s:evm create=%v call=%v eips=%d denom_default=%v", when, p.create, p.call, len(p.eips), p.denom == evmtypes.DefaultEVMDenom))
+}
+
+func (d *gdriver) applyCpc(a *Chain, r *Rng, when string) {
+	ctx := a.Ctx()
+	w := func(i int) string { return a.S.WalletAccounts.Number(i).GetCosmosAddress().String() }
+	lists := [][]string{{}, {w(1)}, {w(1), w(2)}, {w(2), w(1)}, {w(3), w(1), w(2)}, {w(4)}}
+	l := lists[r.Intn(len(lists))]
+	cur := a.App.CPCKeeper.GetParams(ctx)
+	cur.WhitelistedDeployers = l
+	_, err := cpckeeper.NewMsgServerImpl(a.App.CPCKeeper).UpdateParams(ctx, &cpctypes.MsgUpdateParams{Authority: govAuthority(), NewParams: cur})
+	require.NoError(d.t, err)
+	d.side.Count(fmt.Sprintf("config:%s:cpc whitelist=%d", when, len(l)))
 }
 
 // patchGenesis sets the two cpc flags and the whitelisted deployer in an exported app state.
@@ -344,6 +515,29 @@ func patchGenesis(t *testing.T, c *Chain, appState []byte, erc20, staking bool) 
 	cg.DeployStakingContract = staking
 	cg.Params.WhitelistedDeployers = []string{c.S.WalletAccounts.Number(1).GetCosmosAddress().String()}
 	gs["cpc"] = c.S.EncodingConfig.Codec.MustMarshalJSON(&cg)
+	out, err := jsonMarshal(gs)
+	require.NoError(t, err)
+	return out
+}
+
+// patchFm writes fee-market params into a genesis document as text (so that values the Go types would refuse to
+// build, e.g. negative ones, can be written too).
+func patchFm(t *testing.T, appState []byte, baseFee, mgp string) []byte {
+	var gs map[string]jsonRaw
+	require.NoError(t, jsonUnmarshal(appState, &gs))
+	gs["feemarket"] = jsonRaw(fmt.Sprintf(`{"params":{"base_fee":%q,"min_gas_price":%q}}`, baseFee, mgp))
+	out, err := jsonMarshal(gs)
+	require.NoError(t, err)
+	return out
+}
+
+func patchEvmParams(t *testing.T, c *Chain, appState []byte, p evmPlan) []byte {
+	var gs map[string]jsonRaw
+	require.NoError(t, jsonUnmarshal(appState, &gs))
+	var eg evmGenesis
+	require.NoError(t, c.S.EncodingConfig.Codec.UnmarshalJSON(gs["evm"], &eg))
+	eg.Params.EnableCreate, eg.Params.EnableCall, eg.Params.ExtraEIPs, eg.Params.EvmDenom = p.create, p.call, p.eips, p.denom
+	gs["evm"] = c.S.EncodingConfig.Codec.MustMarshalJSON(&eg)
 	out, err := jsonMarshal(gs)
 	require.NoError(t, err)
 	return out
@@ -374,7 +568,7 @@ func (d *gdriver) consts() string {
 }
 
 // reference: what InitGenesis deploys for each flag (the constants of x/cpc/genesis.go), read off a real import with
-// both flags set; then one GImport case per flag combination.
+// both flags set; one GImport case per flag combination; then GImport cases over fee-market documents.
 func (d *gdriver) reference() {
 	t := d.t
 	c0, state0, cp, height := d.base()
@@ -407,6 +601,7 @@ func (d *gdriver) reference() {
 			if !app.CPCKeeper.HasCustomPrecompiledContract(ictx, cpctypes.CpcBech32FixedAddress) {
 				d.side.Hit(sigFlag+"/bech32", fmt.Sprintf("flags %v: bech32 precompile missing", fl), nil)
 			}
+			d.docVsState(g, s, map[string]interface{}{"kind": "GImport", "flags": fl})
 		}
 		if fl[0] && fl[1] {
 			require.NotNil(t, s, "reference import failed")
@@ -426,97 +621,274 @@ func (d *gdriver) reference() {
 		d.side.Count(fmt.Sprintf("case:GImport flags=%v/%v", fl[0], fl[1]))
 		d.side.Case(idx, fmt.Sprintf("GImport/%v/%v", fl[0], fl[1]), true, map[string]interface{}{"kind": "GImport", "deploy_erc20_native": fl[0], "deploy_staking_contract": fl[1]})
 	}
+	// fee-market documents: whatever a (valid) genesis file says is what the chain starts with; a negative value is refused
+	for _, fd := range [][3]string{
+		{"0", "0.500000000000000000", "ok"}, {"1000000000", "1000000000.500000000000000000", "ok"}, {"1000000001", "1000000000.500000000000000000", "ok"},
+		{"5", "1000000000.500000000000000000", "ok"}, {"0", "0.000000000000000000", "ok"}, {"7", "7.000000000000000000", "ok"},
+		{"999999999", "999999999.999999999999999999", "ok"}, {"1606938044258990275541962092341162602522202993782792835301376", "0.000000000000000001", "ok"},
+		{"-1", "0.000000000000000000", "refused"}, {"0", "-0.500000000000000000", "refused"},
+	} {
+		doc := patchFm(t, patchGenesis(t, c0, state0, false, true), fd[0], fd[1])
+		g := projectGen(t, c0, doc)
+		env := envFor(c0, g)
+		app, failure := newAppFrom(c0, doc, cp, height, c0.Time)
+		imp := "None"
+		where := map[string]interface{}{"kind": "GImport", "feemarket_base_fee": fd[0], "feemarket_min_gas_price": fd[1]}
+		switch {
+		case failure == nil && fd[2] == "refused":
+			d.side.Hit(sigFmInvalid, fmt.Sprintf("InitChain accepted fee-market params base_fee=%s min_gas_price=%s", fd[0], fd[1]), where)
+		case failure != nil && fd[2] == "ok":
+			d.side.Hit(sigImportFails, fmt.Sprintf("InitChain refused valid fee-market params base_fee=%s min_gas_price=%s: %v", fd[0], fd[1], failure), where)
+		}
+		if failure == nil {
+			s := readState(t, app, app.NewUncachedContext(false, tmproto.Header{Height: height}))
+			imp = "(Some " + s.coq() + ")"
+			d.docVsState(g, s, where)
+		}
+		idx := d.cases.Len()
+		d.cases.Add(fmt.Sprintf("GImport %s %s %s %s", d.consts(), env.coq(), g.coq(), imp))
+		d.side.Count("case:GImport feemarket document " + fd[2])
+		d.side.Case(idx, fmt.Sprintf("GImport/fm/%s/%s", fd[0], fd[1]), true, where)
+	}
 }
+
+// docVsState: oracle for an import on its own - every params field of the document is what the fresh chain holds.
+func (d *gdriver) docVsState(g *genV, s *cState, where interface{}) {
+	for _, m := range []string{"evm", "feemarket", "cpc"} {
+		if df := diffLeaves(g.leaves[m], s.leaves[m]); len(df) > 0 {
+			sig := map[string]string{"evm": sigEvmParams, "feemarket": sigFmDoc, "cpc": sigCpcParams}[m]
+			d.side.Hit(sig, fmt.Sprintf("%s params after InitChain differ from the genesis document: %s", m, strings.Join(df, "; ")), where)
+		}
+	}
+	if s.EvmBase.Cmp(s.BaseFee) != 0 {
+		d.side.Hit(sigFm, fmt.Sprintf("x/evm reads base fee %s, the fee market holds %s", s.EvmBase, s.BaseFee), where)
+	}
+}
+
+type roundCfg struct {
+	erc20Flag, stakingFlag bool
+	aHeight                string // initial height of chain A: "1", "suite", "high"
+	timing                 string // "genesis" (export right after InitChain), "same-block" (right after the deploying block), "later"
+	blocksAfter            int
+	early                  bool
+	bHeight                string // initial height of chain B: "export", "1", "later"
+	bCons                  string // consensus params of chain B: "export", "unlimited-gas", "small-blocks"
+	bChain                 string // chain id of chain B: "same", "other"
+}
+
+func (c roundCfg) String() string {
+	return fmt.Sprintf("%v/%v/A@%s/%s+%d/early=%v/B@%s/%s/%s", c.erc20Flag, c.stakingFlag, c.aHeight, c.timing, c.blocksAfter, c.early, c.bHeight, c.bCons, c.bChain)
+}
+
+func pick(r *Rng, xs ...string) string { return xs[r.Intn(len(xs))] }
+
+const otherChainID = "evermint_424242-7"
 
 func (d *gdriver) roundCase(ci int, r *Rng) {
 	t := d.t
 	c0, state0, cp, height := d.base()
-	erc20Flag, stakingFlag := r.Bool(), r.Bool()
-	doc := patchGenesis(t, c0, state0, erc20Flag, stakingFlag)
-	appA, failure := newAppFrom(c0, doc, cp, height, c0.Time)
+	cfg := roundCfg{erc20Flag: r.Bool(), stakingFlag: r.Bool(),
+		aHeight: pick(r, "suite", "suite", "1", "high"), timing: pick(r, "later", "later", "later", "later", "same-block", "same-block", "same-block", "genesis"),
+		bHeight: pick(r, "export", "export", "1", "later"), bCons: pick(r, "export", "export", "unlimited-gas", "small-blocks"), bChain: pick(r, "same", "same", "same", "other")}
+	cfg.blocksAfter = 1 + r.Intn(4)
+	cfg.early = r.Chance(30)
+	doc := patchGenesis(t, c0, state0, cfg.erc20Flag, cfg.stakingFlag)
+	if cfg.timing == "genesis" {
+		// the state exported is the one InitChain wrote: put boundary params into the genesis document itself
+		fp := genFm(r, false)
+		doc = patchFm(t, doc, fp.baseFee.String(), fp.mgp.String())
+		doc = patchEvmParams(t, c0, doc, genEvm(r, false))
+		d.side.Count("config:genesis-document:feemarket min_gas_price=" + fp.mgpCls + " base_fee=" + fp.bfCls)
+		cfg.blocksAfter, cfg.early = 0, false
+	}
+	hA := map[string]int64{"suite": height, "1": 1, "high": 1000000007}[cfg.aHeight]
+	appA, failure := newAppFrom(c0, doc, cp, hA, c0.Time)
 	require.Nil(t, failure, "stage A import failed")
 	a := chainOn(t, c0, appA)
 	h := &hist{t: t, c: a, r: r, side: d.side, pending: map[common.Address]uint64{}, erc20Msg: map[common.Address]bool{}}
-	if erc20Flag {
+	if cfg.erc20Flag {
 		ad := appA.CPCKeeper.GetErc20CustomPrecompiledContractAddressByMinDenom(a.QueryCtx(), d.bond)
 		require.NotNil(t, ad)
 		h.nativeGen = ad
 		h.erc20s = append(h.erc20s, *ad)
 	}
-	if stakingFlag {
+	if cfg.stakingFlag {
 		h.stakingBy = "genesis"
 	}
-	a.RunBlock(nil)
-	for i, n := 0, 3+r.Intn(12); i < n; i++ {
-		h.op()
+	if cfg.timing != "genesis" {
+		a.RunBlock(nil)
+		if cfg.early {
+			// the history itself runs under params governance has changed
+			d.applyFm(a, genFm(r, true), "early")
+			a.RunBlock(nil)
+		}
+		nops := 3 + r.Intn(12)
+		if cfg.timing == "same-block" {
+			nops = 2 + r.Intn(8)
+		}
+		for i := 0; i < nops; i++ {
+			h.op()
+		}
+		h.flush()
+		// configuration changes (what governance sets): parameters of the three modules, through the MsgUpdateParams handlers
+		txOK := cfg.timing == "same-block"
+		if r.Chance(90) {
+			d.applyFm(a, genFm(r, txOK), "late")
+		}
+		if r.Chance(60) {
+			d.applyEvm(a, genEvm(r, txOK), "late")
+		}
+		if r.Chance(50) {
+			d.applyCpc(a, r, "late")
+		}
+		if cfg.timing == "same-block" {
+			// the export follows the block that deploys / writes / destroys
+			h.evmOnly = true
+			h.ops = append(h.ops, "|")
+			before := len(h.ops)
+			for i, n := 0, 2+r.Intn(4); i < n || len(h.ops) == before; i++ {
+				h.op()
+			}
+			h.flush()
+			cfg.blocksAfter = 0
+		} else {
+			for i := 0; i < cfg.blocksAfter; i++ {
+				a.RunBlock(nil) // EndBlock: the fee market moves the base fee and applies its floor
+			}
+		}
 	}
-	h.flush()
-	// configuration changes (what governance could have set): parameters of the three modules
-	ctx := a.Ctx()
-	if r.Chance(40) {
-		p := appA.FeeMarketKeeper.GetParams(ctx)
-		p.MinGasPrice = sdkmath.LegacyNewDecWithPrec(int64(1+r.Intn(1000)), int64(r.Intn(4)))
-		require.NoError(t, appA.FeeMarketKeeper.SetParams(ctx, p))
-		d.side.Count("config:feemarket_min_gas_price")
-	}
-	if r.Chance(30) {
-		p := appA.EvmKeeper.GetParams(ctx)
-		p.EnableCreate = r.Bool()
-		p.EnableCall = r.Bool()
-		require.NoError(t, appA.EvmKeeper.SetParams(ctx, p))
-		d.side.Count("config:evm_enable_flags")
-	}
-	if r.Chance(30) {
-		p := appA.CPCKeeper.GetParams(ctx)
-		p.WhitelistedDeployers = append(p.WhitelistedDeployers, c0.S.WalletAccounts.Number(2).GetCosmosAddress().String())
-		sort.Strings(p.WhitelistedDeployers)
-		require.NoError(t, appA.CPCKeeper.SetParams(ctx, p))
-		d.side.Count("config:cpc_whitelist")
-	}
-	a.RunBlock(nil) // commit the changes; the fee market moves the base fee once more
+	d.side.Count("timing:" + cfg.timing)
+	d.side.Count("A initial height:" + cfg.aHeight)
+	where := where0(ci, d.seed, cfg, h.ops)
 
-	// ---- export A, import into B, export B
+	// ---- export A (twice), import into B, export B
 	sA := readState(t, appA, a.QueryCtx())
 	exp1, err := appA.ExportAppStateAndValidators(false, nil, nil)
 	require.NoError(t, err)
 	g1 := projectGen(t, a, exp1.AppState)
+	if exp1.Height != appA.LastBlockHeight()+1 {
+		d.side.Hit(sigHeight, fmt.Sprintf("export height %d, last block %d", exp1.Height, appA.LastBlockHeight()), where)
+	}
+	{ // the export reads, it does not write; exporting again gives the same document
+		if sA2 := readState(t, appA, a.QueryCtx()); sA2.coq() != sA.coq() {
+			d.side.Hit(sigExportWrites, "the custom modules' stores differ after ExportAppStateAndValidators", where)
+		}
+		exp1b, err := appA.ExportAppStateAndValidators(false, nil, nil)
+		require.NoError(t, err)
+		g1b := projectGen(t, a, exp1b.AppState)
+		for _, m := range []string{"evm", "feemarket", "cpc", "vauth"} {
+			if g1.canon[m] != g1b.canon[m] {
+				d.side.Hit(sigNondet+"/"+m, "two exports of the same state differ in module "+m, where)
+			}
+		}
+	}
+	// the exported params are the params of the state, field by field
+	for _, m := range []string{"evm", "feemarket", "cpc"} {
+		if df := diffLeaves(sA.leaves[m], g1.leaves[m]); len(df) > 0 {
+			d.side.Hit(sigExportState+"/"+m+"-params", "exported "+m+" params differ from the state: "+strings.Join(df, "; "), where)
+		}
+	}
+	d.fmHistogram(sA)
 	env := envFor(a, g1)
 	for id, code := range sA.codes {
 		env.hashes[id] = code
 	}
 	for m, e := range g1.invalid {
-		d.side.Hit(sigInvalid+"/"+m, "the exported "+m+" genesis does not pass the module's own validation: "+e, where0(ci, d.seed, erc20Flag, stakingFlag, h.ops))
+		d.side.Hit(sigInvalid+"/"+m, "the exported "+m+" genesis does not pass the module's own validation: "+e, where)
+	}
+	for _, u := range sA.Unknown {
+		d.side.Hit(sigUnknown, "chain A: "+u, where)
 	}
 	cp1 := exp1.ConsensusParams
-	appB, failure := newAppFrom(a, exp1.AppState, &cp1, exp1.Height, a.Time)
+	switch cfg.bCons {
+	case "unlimited-gas":
+		cp1.Block.MaxGas = -1
+	case "small-blocks":
+		cp1.Block.MaxGas, cp1.Block.MaxBytes = 2000000, 1<<20
+	}
+	hB := map[string]int64{"export": exp1.Height, "1": 1, "later": exp1.Height + 1000}[cfg.bHeight]
+	chainB := a.S.ChainConstantsConfig.GetCosmosChainID()
+	wantChainID := sA.ChainID
+	if cfg.bChain == "other" {
+		chainB, wantChainID = otherChainID, 424242
+	}
+	d.side.Count("B:" + cfg.bHeight + "/" + cfg.bCons + "/" + cfg.bChain)
+	appB, failure := newAppWith(a, exp1.AppState, &cp1, hB, a.Time, chainB)
 	imp, g2t := "None", "None"
-	where := where0(ci, d.seed, erc20Flag, stakingFlag, h.ops)
 	if failure != nil {
 		d.side.Hit(sigImportFails, fmt.Sprintf("InitChain on the exported state failed: %v", failure), where)
 	} else {
-		sB := readState(t, appB, appB.NewUncachedContext(false, tmproto.Header{Height: exp1.Height}))
+		sB := readState(t, appB, appB.NewUncachedContext(false, tmproto.Header{Height: hB}))
 		imp = "(Some " + sB.coq() + ")"
 		d.compare(h, sA, sB, where)
+		d.docVsState(g1, sB, where)
+		if sB.ChainID != wantChainID {
+			d.side.Hit(sigChainID, fmt.Sprintf("x/evm of chain B holds EIP-155 chain id %d, its chain id says %d", sB.ChainID, wantChainID), where)
+		}
+		for _, u := range sB.Unknown {
+			d.side.Hit(sigUnknown, "chain B: "+u, where)
+		}
 		exp2, err := appB.ExportAppStateAndValidators(false, nil, nil)
 		require.NoError(t, err)
 		g2 := projectGen(t, a, exp2.AppState)
 		g2t = "(Some " + g2.coq() + ")"
 		for _, m := range []string{"evm", "feemarket", "cpc", "vauth"} {
 			if g1.canon[m] != g2.canon[m] {
-				d.side.Hit(sigSecondExport+"/"+m, "the export of the re-imported state differs from the first export in module "+m, where)
+				msg := "the export of the re-imported state differs from the first export in module " + m
+				if df := diffLeaves(g1.leaves[m], g2.leaves[m]); len(df) > 0 {
+					msg += " (params: " + strings.Join(df, "; ") + ")"
+				}
+				d.side.Hit(sigSecondExport+"/"+m, msg, where)
 			}
 		}
 	}
-	nontrivial := len(sA.Storage) > 0 || len(sA.Allow) > 0 || len(sA.Proofs) > 0 || len(sA.Metas) > 1
+	nontrivial := len(sA.Storage) > 0 || len(sA.Allow) > 0 || len(sA.Proofs) > 0 || len(sA.Metas) > 1 || cfg.timing == "genesis"
 	idx := d.cases.Len()
 	d.cases.Add(fmt.Sprintf("GRound %s %s %s %s %s %s", d.consts(), env.coq(), sA.coq(), g1.coq(), imp, g2t))
-	d.side.Count(fmt.Sprintf("case:GRound flags=%v/%v", erc20Flag, stakingFlag))
+	d.side.Count(fmt.Sprintf("case:GRound flags=%v/%v", cfg.erc20Flag, cfg.stakingFlag))
 	d.side.Count(fmt.Sprintf("state:contracts=%d", min(len(sA.CodeHash), 5)))
-	d.side.Case(idx, fmt.Sprintf("GRound/%v/%v/%s", erc20Flag, stakingFlag, strings.Join(h.ops, ",")), nontrivial, where)
+	d.side.Count(fmt.Sprintf("state:slots=%s", bucket(len(sA.Storage))))
+	d.side.Case(idx, fmt.Sprintf("GRound/%s/%s", cfg, strings.Join(h.ops, ",")), nontrivial, where)
 }
 
-func where0(ci int, seed uint64, erc20Flag, stakingFlag bool, ops []string) map[string]interface{} {
-	return map[string]interface{}{"case": ci, "seed": seed, "deploy_erc20_native": erc20Flag, "deploy_staking_contract": stakingFlag, "ops": ops}
+func bucket(n int) string {
+	switch {
+	case n == 0:
+		return "0"
+	case n < 5:
+		return "1-4"
+	case n < 20:
+		return "5-19"
+	default:
+		return "20+"
+	}
+}
+
+// fmHistogram: where the exported fee-market state sits (the classes the property's "current base fee" clause is sensitive to)
+func (d *gdriver) fmHistogram(s *cState) {
+	prec := new(big.Int).Exp(big.NewInt(10), big.NewInt(18), nil)
+	floor, rem := new(big.Int).QuoRem(s.MinGasPrice, prec, new(big.Int))
+	frac := "integral"
+	if rem.Sign() != 0 {
+		frac = "fractional"
+	}
+	if s.MinGasPrice.Sign() == 0 {
+		frac = "zero"
+	}
+	rel := "above-floor"
+	switch c := s.BaseFee.Cmp(floor); {
+	case c == 0:
+		rel = "on-floor"
+	case c < 0:
+		rel = "below-floor"
+	case new(big.Int).Sub(s.BaseFee, floor).Cmp(big.NewInt(8)) <= 0:
+		rel = "just-above-floor"
+	}
+	d.side.Count("export:min_gas_price " + frac + ", base_fee " + rel)
+}
+
+func where0(ci int, seed uint64, cfg roundCfg, ops []string) map[string]interface{} {
+	return map[string]interface{}{"case": ci, "seed": seed, "config": cfg.String(), "ops": ops}
 }
 
 func min(a, b int) int {
@@ -526,7 +898,10 @@ func min(a, b int) int {
 	return b
 }
 
-// compare: the oracle. Everything observable in the four modules' stores of A must be in B, and nothing else.
+// compare: the oracle. Everything observable in the four modules' stores of A must be in B, and nothing else. The five
+// known losses are reported under their own signature ONLY in the exact form they have today (the entry is absent in B,
+// resp. the staking metadata equals the genesis default); any other deviation - an entry that survives changed, a
+// further entry lost, an entry B has and A has not - is reported under a signature that is not known.
 func (d *gdriver) compare(h *hist, a, b *cState, where map[string]interface{}) {
 	hit := func(sig, msg string) { d.side.Hit(sig, msg, where) }
 	idx := func(l []zz) map[string]*big.Int {
@@ -541,9 +916,9 @@ func (d *gdriver) compare(h *hist, a, b *cState, where map[string]interface{}) {
 	for _, e := range a.CodeHash {
 		contract[e.K.String()] = true
 	}
-	// evm
-	if a.EvmParams != b.EvmParams {
-		hit(sigEvmParams, "evm params differ after the round trip")
+	// ---- evm: params field by field, code hash, code and storage entry by entry, both directions
+	if df := diffLeaves(a.leaves["evm"], b.leaves["evm"]); len(df) > 0 || a.EvmParams != b.EvmParams {
+		hit(sigEvmParams, "evm params differ after the round trip: "+strings.Join(df, "; "))
 	}
 	bch, bcode, bst := idx(b.CodeHash), idx(b.Code), idx(b.Storage)
 	acode := idx(a.Code)
@@ -566,7 +941,7 @@ func (d *gdriver) compare(h *hist, a, b *cState, where map[string]interface{}) {
 		if contract[addr.String()] {
 			hit(sigContract, fmt.Sprintf("storage slot of contract %s lost or changed (value %s)", common.BigToAddress(addr), e.V))
 		} else {
-			hit(sigCodeless, fmt.Sprintf("storage slot of code-less account %s is not exported", common.BigToAddress(addr)))
+			hit(sigCodeless, fmt.Sprintf("storage slot of code-less account %s lost or changed by export -> InitChain (value %s)", common.BigToAddress(addr), e.V))
 		}
 	}
 	ach, ast := idx(a.CodeHash), idx(a.Storage)
@@ -580,70 +955,101 @@ func (d *gdriver) compare(h *hist, a, b *cState, where map[string]interface{}) {
 			hit(sigAdds+"/evm-storage", "B has a storage slot A has not")
 		}
 	}
-	// fee market
-	if a.BaseFee.Cmp(b.BaseFee) != 0 || a.MinGasPrice.Cmp(b.MinGasPrice) != 0 {
-		hit(sigFm, fmt.Sprintf("base fee %s -> %s, min gas price %s -> %s", a.BaseFee, b.BaseFee, a.MinGasPrice, b.MinGasPrice))
+	for _, e := range b.Code {
+		if v, ok := acode[e.K.String()]; !ok || v.Cmp(e.V) != 0 {
+			hit(sigAdds+"/evm-code", "B has code A has not")
+		}
 	}
-	// cpc
-	if a.CpcParams != b.CpcParams {
-		hit(sigCpcParams, "cpc params differ after the round trip")
+	// ---- fee market: every field, and the base fee as x/evm reads it
+	if df := diffLeaves(a.leaves["feemarket"], b.leaves["feemarket"]); len(df) > 0 || a.BaseFee.Cmp(b.BaseFee) != 0 || a.MinGasPrice.Cmp(b.MinGasPrice) != 0 || a.EvmBase.Cmp(b.EvmBase) != 0 {
+		hit(sigFm, fmt.Sprintf("base fee %s -> %s, min gas price (x 10^18) %s -> %s; fields: %s", a.BaseFee, b.BaseFee, a.MinGasPrice, b.MinGasPrice, strings.Join(df, "; ")))
 	}
-	for _, m := range a.Metas {
+	// ---- cpc
+	if df := diffLeaves(a.leaves["cpc"], b.leaves["cpc"]); len(df) > 0 || a.CpcParams != b.CpcParams {
+		hit(sigCpcParams, "cpc params differ after the round trip: "+strings.Join(df, "; "))
+	}
+	same := func(x, y *metaV) bool {
+		return x.Type == y.Type && x.Digest == y.Digest && x.raw.Name == y.raw.Name && x.raw.TypedMeta == y.raw.TypedMeta && x.raw.Disabled == y.raw.Disabled
+	}
+	for i := range a.Metas {
+		m := &a.Metas[i]
 		addr := common.BigToAddress(m.Addr)
 		mb := findMeta(b, m.Addr)
 		switch {
-		case mb != nil && mb.Type == m.Type && mb.Digest == m.Digest:
-		case m.Type == uint64(cpctypes.CpcTypeErc20) && h.erc20Msg[addr]:
+		case mb != nil && same(m, mb):
+			// survives
+		case mb == nil && m.Type == uint64(cpctypes.CpcTypeErc20) && h.erc20Msg[addr]:
 			hit(sigErc20Msg, fmt.Sprintf("ERC-20 precompile %s (%s), deployed by message, is gone", addr, m.raw.Name))
-		case m.Type == uint64(cpctypes.CpcTypeErc20) && h.nativeGen != nil && *h.nativeGen == addr:
+		case mb == nil && m.Type == uint64(cpctypes.CpcTypeErc20) && h.nativeGen != nil && *h.nativeGen == addr:
 			hit(sigErc20Native, fmt.Sprintf("native ERC-20 precompile %s, deployed by the genesis flag, is gone (DeployErc20Native is exported as false)", addr))
-		case m.Type == uint64(cpctypes.CpcTypeStaking) && h.stakingBy == "msg" && mb != nil:
+		case mb != nil && m.Type == uint64(cpctypes.CpcTypeStaking) && h.stakingBy == "msg" && addr == cpctypes.CpcStakingFixedAddress && same(mb, &d.kStaking):
 			hit(sigStakingMeta, fmt.Sprintf("staking precompile metadata %q replaced by the genesis default %q", m.raw.TypedMeta, mb.raw.TypedMeta))
+		case mb == nil:
+			hit(sigCpcOther, fmt.Sprintf("precompile %s (type %d, %s) is lost", addr, m.Type, m.raw.Name))
 		default:
-			hit(sigCpcOther, fmt.Sprintf("precompile %s (type %d) lost or changed", addr, m.Type))
+			hit(sigChanged+"/cpc-meta", fmt.Sprintf("precompile %s (type %d): name %q -> %q, typed meta %q -> %q, disabled %v -> %v, type -> %d", addr, m.Type, m.raw.Name, mb.raw.Name, m.raw.TypedMeta, mb.raw.TypedMeta, m.raw.Disabled, mb.raw.Disabled, mb.Type))
 		}
 	}
 	for _, m := range b.Metas {
 		if findMeta(a, m.Addr) == nil {
-			hit(sigAdds+"/cpc-meta", "B has a precompile A has not")
+			hit(sigAdds+"/cpc-meta", fmt.Sprintf("B has a precompile A has not: %s", common.BigToAddress(m.Addr)))
 		}
 	}
-	bden := idx(b.Denoms)
+	aden, bden := idx(a.Denoms), idx(b.Denoms)
 	for _, e := range a.Denoms {
-		if v, ok := bden[e.K.String()]; !ok || v.Cmp(e.V) != 0 {
-			ad := common.BigToAddress(e.V)
-			switch {
-			case h.erc20Msg[ad]:
-				hit(sigErc20Msg, "denom index entry of "+a.denoms[e.K.Uint64()]+" is gone")
-			case h.nativeGen != nil && *h.nativeGen == ad:
-				hit(sigErc20Native, "denom index entry of "+a.denoms[e.K.Uint64()]+" is gone")
-			default:
-				hit(sigCpcOther, "denom index entry lost")
-			}
+		ad := common.BigToAddress(e.V)
+		v, ok := bden[e.K.String()]
+		switch {
+		case ok && v.Cmp(e.V) == 0:
+		case !ok && h.erc20Msg[ad]:
+			hit(sigErc20Msg, "denom index entry of "+a.denoms[e.K.Uint64()]+" is gone")
+		case !ok && h.nativeGen != nil && *h.nativeGen == ad:
+			hit(sigErc20Native, "denom index entry of "+a.denoms[e.K.Uint64()]+" is gone")
+		case !ok:
+			hit(sigCpcOther, "denom index entry of "+a.denoms[e.K.Uint64()]+" lost")
+		default:
+			hit(sigChanged+"/cpc-denom", fmt.Sprintf("denom index entry of %s points to %s, was %s", a.denoms[e.K.Uint64()], common.BigToAddress(v), ad))
 		}
 	}
-	if len(b.Denoms) > len(a.Denoms) {
-		hit(sigAdds+"/cpc-denom", "B has a denom index entry A has not")
+	for _, e := range b.Denoms {
+		if _, ok := aden[e.K.String()]; !ok {
+			hit(sigAdds+"/cpc-denom", "B has a denom index entry A has not: "+b.denoms[e.K.Uint64()])
+		}
 	}
-	ball := idx(b.Allow)
+	aall, ball := idx(a.Allow), idx(b.Allow)
 	for _, e := range a.Allow {
-		if v, ok := ball[e.K.String()]; !ok || v.Cmp(e.V) != 0 {
+		v, ok := ball[e.K.String()]
+		switch {
+		case ok && v.Cmp(e.V) == 0:
+		case !ok:
 			hit(sigAllow, fmt.Sprintf("allowance of %s is not exported", e.V))
+		default:
+			hit(sigChanged+"/cpc-allowance", fmt.Sprintf("allowance %s -> %s", e.V, v))
 		}
 	}
-	if len(b.Allow) > 0 && len(b.Allow) > len(a.Allow) {
-		hit(sigAdds+"/cpc-allowance", "B has an allowance A has not")
+	for _, e := range b.Allow {
+		if _, ok := aall[e.K.String()]; !ok {
+			hit(sigAdds+"/cpc-allowance", "B has an allowance A has not")
+		}
 	}
-	// vauth
-	bpr := idx(b.Proofs)
+	// ---- vauth
+	apr, bpr := idx(a.Proofs), idx(b.Proofs)
 	for _, e := range a.Proofs {
-		if v, ok := bpr[e.K.String()]; !ok || v.Cmp(e.V) != 0 {
+		v, ok := bpr[e.K.String()]
+		switch {
+		case ok && v.Cmp(e.V) == 0:
+		case !ok:
 			hit(sigProofs, fmt.Sprintf("ownership proof of %s is not exported", common.BigToAddress(e.K)))
+		default:
+			hit(sigChanged+"/vauth-proof", fmt.Sprintf("ownership proof of %s changed", common.BigToAddress(e.K)))
 		}
 	}
-	if len(b.Proofs) > len(a.Proofs) {
-		hit(sigAdds+"/vauth-proof", "B has a proof A has not")
+	for _, e := range b.Proofs {
+		if _, ok := apr[e.K.String()]; !ok {
+			hit(sigAdds+"/vauth-proof", "B has a proof A has not")
+		}
 	}
 }
 
 var _ = chainapp.DefaultNodeHome
+var _ = sort.Strings
